@@ -235,6 +235,23 @@ func checkC14x(rd *RunData) []Violation {
 		}
 		return "from-memory"
 	}
+	// a call on key k that was in flight while a restart saved the cache makes the snapshot of k a
+	// snapshot of a non-quiescent cache (e.g. a Delete that has removed the map slot and is parked
+	// before queueing its REMOVE event is still in the policy lists, which is what SaveCache walks):
+	// what k holds after that restart is not decidable from the history
+	undecided := func(key int, r Rec) bool {
+		for _, rs := range rd.Restarts {
+			if rs.DoneSeq > r.Ret {
+				continue
+			}
+			for _, o := range recs {
+				if o.Op.Key == key && (o.Op.Kind == "set" || o.Op.Kind == "del" || o.Op.Kind == "get") && o.Inv < rs.DoneSeq && (o.Open || o.Ret > rs.BeginSeq) {
+					return true
+				}
+			}
+		}
+		return false
+	}
 	ruleHit := false
 	for _, r := range recs {
 		if r.Op.Kind != "get" || !r.Ok || r.Open {
@@ -250,7 +267,14 @@ func checkC14x(rd *RunData) []Violation {
 		if src == "from-secondary" {
 			probe("c14.hit-from-secondary")
 		}
+		skipOrder := len(rd.Restarts) > 0 && undecided(r.Op.Key, r)
+		if skipOrder {
+			probe("c14.key-in-flight-during-restart")
+		}
 		for _, s2 := range sets[r.Op.Key] {
+			if skipOrder {
+				break
+			}
 			if s2.Inv > w.r.Ret && s2.Ret < r.Inv {
 				src := source(r, s2.Inv) // promoted from the secondary tier after the newer Set began
 				// why was the newer value not there any more?
@@ -299,6 +323,9 @@ func checkC14x(rd *RunData) []Violation {
 			}
 		}
 		for _, d := range dels[r.Op.Key] {
+			if skipOrder {
+				break
+			}
 			if c14RacesRestart(rd, d) {
 				continue
 			}
